@@ -120,7 +120,10 @@ impl Prop for C14 {
                 }
             }
             r.world.src.send(entry);
-            r.barrier();
+            if !r.barrier() {
+                out.fail("reload-lost", format!("step {n}: the notified change of a loaded asset's file (the barrier's sentinel) was never applied although hot_reload kept returning"));
+                break;
+            }
             for m in r.harness_violations() {
                 out.fail("recording-not-restored", format!("while reloading after an edit of {entry:?}: {m}"));
                 return out;
